@@ -86,7 +86,7 @@ def build (prio : Prio) (toks : Array Token) :
             | some p =>
               (match result with
                 | some r =>
-                  if p ≤ prioGet prio prevOp && tok.text != "**" && tok.text != "^" then .ok (.ret r (index - 1))
+                  if p < prioGet prio prevOp || (p == prioGet prio prevOp && tok.text != "**" && tok.text != "^") then .ok (.ret r (index - 1))
                   else match build prio toks fuel (index + 1) (depth + 1) tok.text none with
                     | .error e => .error e
                     | .ok (right, idx) => .ok (.cont (some (.binary r (some tok.text) right)) idx)
